@@ -29,6 +29,10 @@ pub struct Stats {
     pub par_items: u64,
     pub par_batches: u64,
     pub max_pool_threads: u64,
+    /// simulated tasks the rayon stand-in started in this execution / helpers it did not
+    /// start because the execution already had 24 000 tasks (see shims/rayon pool.rs)
+    pub tasks_started: u64,
+    pub tasks_refused: u64,
     // scc stand-in
     pub map_ops: u64,
 }
